@@ -79,22 +79,27 @@ def t_space(acc, m, L, shard, nshard, lo=0, digits=False, share=False, multi=Fal
 
 def plan(tier, seed):
     tasks = []
-    if tier == 'quick':
-        m, L, ns = 6, 4, 16
-        tasks += [('plain', 'mc.props.c05:t_space', {'m': 5, 'L': 6, 'shard': s, 'nshard': 4}) for s in range(4)]
-        tasks += [('plain', 'mc.props.c05:t_space', {'m': 6, 'L': 4, 'shard': s, 'nshard': 16, 'lo': 5}) for s in range(16)]
-        tasks += [('plain', 'mc.props.c05:t_space', {'m': 5, 'L': 4, 'shard': s, 'nshard': 4, 'digits': True}) for s in range(4)]
-        tasks += [('plain', 'mc.props.c05:t_space', {'m': 7, 'L': 3, 'shard': s, 'nshard': 32, 'lo': 6}) for s in range(32)]
-        tasks += [('plain', 'mc.props.c05:t_space', {'m': 8, 'L': 3, 'shard': s, 'nshard': 64, 'lo': 7}) for s in range(64)]
-        tasks += [('plain', 'mc.props.c05:t_space', {'m': 6, 'L': 3, 'shard': s, 'nshard': 8, 'share': True}) for s in range(8)]
-        tasks += [('plain', 'mc.props.c05:t_space', {'m': 5, 'L': 4, 'shard': s, 'nshard': 4, 'multi': True}) for s in range(4)]
-        bounds = 'RE(5) x words <= 6; RE(6) x words <= 4; RE(7), RE(8) x words <= 3; RE(6) with equal subterms shared as one node object (DAG); RE(5) with the two-character symbols ab, ba; RE(5) over the digit symbols 0,1 (which print like the constants) x words <= 4'
-    else:
-        tasks += [('plain', 'mc.props.c05:t_space', {'m': 6, 'L': 6, 'shard': s, 'nshard': 16}) for s in range(16)]
-        tasks += [('plain', 'mc.props.c05:t_space', {'m': 7, 'L': 4, 'shard': s, 'nshard': 64, 'lo': 6}) for s in range(64)]
-        tasks += [('plain', 'mc.props.c05:t_space', {'m': 8, 'L': 3, 'shard': s, 'nshard': 128, 'lo': 7}) for s in range(128)]
-        tasks += [('plain', 'mc.props.c05:t_space', {'m': 6, 'L': 4, 'shard': s, 'nshard': 16, 'digits': True}) for s in range(16)]
-        bounds = 'RE(6) x words <= 6; RE(7) x words <= 4; RE(8) x words <= 3; RE(6) over the digit symbols 0,1 x words <= 4'
+    T = 'mc.props.c05:t_space'
+
+    def add(m, L, ns, **kw):
+        tasks.extend(('plain', T, dict({'m': m, 'L': L, 'shard': s, 'nshard': ns}, **kw)) for s in range(ns))
+
+    add(5, 6, 4)
+    add(6, 4, 16, lo=5)
+    add(7, 3, 32, lo=6)
+    add(8, 3, 64, lo=7)
+    add(6, 3, 8, share=True)
+    add(5, 4, 4, multi=True)
+    add(5, 4, 4, digits=True)
+    bounds = 'RE(5) x words <= 6; RE(6) x words <= 4; RE(7), RE(8) x words <= 3; RE(6) with equal subterms shared as one node object (DAG); RE(5) with the two-character symbols ab, ba; RE(5) over the digit symbols 0,1 (which print like the constants) x words <= 4'
+    if tier != 'quick':
+        add(6, 6, 16, lo=5)
+        add(7, 5, 64, lo=6)
+        add(9, 3, 256, lo=8)
+        add(7, 3, 32, share=True, lo=6)
+        add(6, 4, 16, multi=True, lo=5)
+        add(6, 4, 16, digits=True, lo=5)
+        bounds += '; thorough adds RE(6) x words <= 6, RE(7) x words <= 5, RE(9) (665 252 trees) x words <= 3, DAG RE(7), two-character symbols and digit symbols on RE(6)'
     return {'tasks': tasks, 'bounds': {'spaces': bounds}, 'exhaustive': True,
             'rule': 'every expression tree with <= m nodes over leaves 0,1,a,b and operators *,+,. x every word over {a,b} up to L (matcher vs Brzozowski derivatives); simplifier vs exact Glushkov equivalence; non-trivial = accepts some but not all tested words',
             'assumptions': ['symbols are single characters or identifiers (ab, ba); a word is a string']}
